@@ -35,6 +35,7 @@ def check(tier, seed):
     with C.WorkDir('C09') as wd:
         C.audit_sources()
         C.props_obligations(res, 'C09', wd)
+        C.tie_b_kernels(res, wd, ('ck', 'ubx', 'nmea'))
         rng = C.rng_for(seed, 'C09')
         cases = []
         n = 120 if tier == 'quick' else 4000
